@@ -46,10 +46,25 @@ def legacy_suites(chk, rng, R, known, n, full=False):
     full=True compares every attribute (C05: faithful upgrade); otherwise only the placement (C10)."""
     # legacy images documents with 'src' cells
     docs = [{"doc": DL.gen_images_doc(rng, R)} for _ in range(n)]
+    # a legacy document in which a variant with source images ALSO lists a forbidden architecture with no image of its own: the
+    # source images would have to be filed under it, so the document is refused
+    for i in range(max(4, n // 10)):
+        d = DL.gen_images_doc(rng, R, version=rng.choice(["1.0", "1.1"]))
+        hit = False
+        for v, arches in d["payload"]["images"].items():
+            if arches.get("src") and any(a != "src" for a in arches):
+                arches[rng.choice(["nosrc", "i786", "bogus"])] = []          # last key: not the first non-src one
+                hit = True
+        if hit:
+            docs.append({"doc": d, "empty_bad_cell": True})
 
     def oracle_img(c, r):
         doc = c["doc"]
         ver = tuple(int(x) for x in doc["header"]["version"].split("."))
+        if c.get("empty_bad_cell"):
+            if r[0] == "ok":
+                return "a %s document whose source images would be filed under a forbidden architecture was loaded" % doc["header"]["version"]
+            return None if r[1] == "ValueError" else "refused with %s (documented: ValueError)" % r[1]
         if r[0] != "ok":
             if ver <= (1, 1):
                 return "a valid %s images document with 'src' cells was rejected: %r" % (doc["header"]["version"], r)
